@@ -122,6 +122,8 @@ func HDryRun() {
 	pre := symPre(fsys, "f", vparam("m"), 1)
 	// an extraneous entry that --delete would remove
 	fsys.Add(&vfsx.Node{Name: "x", Kind: vfsx.KReg, Perm: 0o600, Data: []byte{1}})
+	fsys.Add(&vfsx.Node{Name: "xd", Kind: vfsx.KDir, Perm: 0o700})
+	fsys.Add(&vfsx.Node{Name: "xd/y", Kind: vfsx.KReg, Perm: 0o600, Data: []byte{2}})
 	opts := allOpts()
 	opts.DryRun = true
 	f := symEntry("f", 1)
@@ -161,6 +163,7 @@ func HDryRun() {
 	vassert(sameNode(fsys.Get("f"), pre), "dry run changed the destination entry")
 	x := fsys.Get("x")
 	vassert(x.Kind == vfsx.KReg, "dry run deleted an extraneous file")
+	vassert(fsys.Get("xd").Kind == vfsx.KDir && fsys.Get("xd/y").Kind == vfsx.KReg, "dry run deleted an extraneous directory")
 	vreach("done")
 }
 
